@@ -24,7 +24,7 @@ use std::{
     fmt,
     ops::{Deref, DerefMut},
 };
-use unicode_width::UnicodeWidthStr;
+use unicode_width::UnicodeWidthChar;
 
 mod cell;
 mod contacts;
@@ -533,7 +533,14 @@ impl CellBuffer {
                         acc
                     },
                 );
-                let escaped_unicode_width = escaped.width();
+                // number of buffer columns between the quotes: the NUL fillers that
+                // follow a wide character are already part of `escaped`, and every
+                // other character occupies at least one column
+                let escaped_unicode_width: usize = escaped
+                    .chars()
+                    .filter(|ch| *ch != '\0')
+                    .map(|ch| ch.width().unwrap_or(1).max(1))
+                    .sum();
                 let cell = Cell::new(*start as i32, line as i32);
                 escaped_text.push((cell, escaped));
                 no_escaped_text += &input_chars[index..*start].iter().fold(
